@@ -19,7 +19,7 @@ RULE = ('states = group elements reached by BFS over the Cayley graph using the 
 ASSUMPTIONS = ['unit quaternions only (the statement is about unit quaternions)',
                'tolerance 1e-12 absolute (relative to |v| for vector rotation); observed <= 3e-15',
                'reference model mc/ref/quat.py is the textbook formula; any disagreement is reported as a violation']
-REQUIRED_CLASSES = ['default-objects', 'quaternion-objects-as-arguments', 'derived-scalar-last', 'cayley:closed', 'pairs:group', 'pairs:coset', 'unary:edge', 'rotate', 'int-operands', 'array-history']
+REQUIRED_CLASSES = ['default-objects', 'quaternion-objects-as-arguments', 'derived-scalar-last', 'multiplication-matrices', 'normalised-in-place', 'cayley:closed', 'pairs:group', 'pairs:coset', 'unary:edge', 'rotate', 'int-operands', 'array-history']
 TOL = 1e-12
 
 
@@ -490,6 +490,51 @@ def job_objects(ctx, k):
             except Exception as ex:
                 ctx.fail("order='S': operation on a derived object raises", key, repr(ex)[:120], 'completes')
         ctx.cls('derived-scalar-last')
+    # (4) the multiplication matrices (method and free-function twins): L(p) q = p q = R(q) p, and the product they give has the product of the matrices
+    for pi_, p in enumerate(qs):
+        for qi, q in enumerate(qs):
+            key = f'p#{pi_} q#{qi} k{k}'
+            pq = rq.qmul(p, q)
+            for nm, got in (('Quaternion.mult_L', lambda: np.asarray(Quaternion(p.copy()).mult_L(), float) @ q), ('Quaternion.mult_R', lambda: np.asarray(Quaternion(q.copy()).mult_R(), float) @ p),
+                            ('q_mult_L', lambda: np.asarray(O.q_mult_L(p.copy()), float) @ q), ('q_mult_R', lambda: np.asarray(O.q_mult_R(q.copy()), float) @ p)):
+                try:
+                    out = got()
+                except Exception as ex:
+                    ctx.fail(f'{nm} raises', key, repr(ex)[:120], pq); continue
+                ctx.close(out, pq, TOL, f'{nm}: the multiplication matrix applied to the other factor is the Hamilton product', key)
+                ctx.close(rq.R(rq.qunit(out)) if np.all(np.isfinite(out)) and np.any(out) else np.full((3, 3), np.nan), rq.R(p) @ rq.R(q), 1e-9, f'{nm}: M(product through the multiplication matrix) = M(p) M(q)', key)
+        ctx.cls('multiplication-matrices')
+    # (5) an object built with versor=False from a non-unit array and then normalised in place is the unit quaternion on EVERY route that reads it
+    for qi, q in enumerate(qs):
+        for scale in (3.0, 0.2):
+            for order in ('H', 'S'):
+                raw = (q if order == 'H' else np.roll(q, -1)) * scale
+                key = f'q#{qi} scale={scale:g} order={order} k{k}'
+                try:
+                    Qn = Quaternion(raw.copy(), versor=False, order=order)
+                    Qn.normalize()
+                except Exception as ex:
+                    ctx.outcome(('normalize-refused', order)); continue
+                unit = q if order == 'H' else np.roll(q, -1)
+                Rq = rq.R(q)
+                reads = [('np.asarray(q)', lambda: np.asarray(Qn, float), unit), ('q.A', lambda: np.asarray(Qn.A, float), unit), ('q.to_array()', lambda: np.asarray(Qn.to_array(), float), unit),
+                         ('(-q).A negated', lambda: -np.asarray((-Qn).A, float), unit), ('q.copy()', lambda: np.asarray(Qn.copy(), float), unit),
+                         ('copy.deepcopy(q).A', lambda: np.asarray(_copy.deepcopy(Qn).A, float), unit), ('q.to_DCM()', lambda: np.asarray(Qn.to_DCM(), float), Rq),
+                         ('(-q).to_DCM()', lambda: np.asarray((-Qn).to_DCM(), float), Rq), ('q.copy().to_DCM()', lambda: np.asarray(Qn.copy().to_DCM(), float), Rq),
+                         ('q.rotate(v)', lambda: np.asarray(Qn.rotate(v.copy()), float), Rq @ v), ('[w, x, y, z]', lambda: np.array([Qn.w, Qn.x, Qn.y, Qn.z], float), q)]
+                if order == 'H':
+                    reads += [('q2R(q)', lambda: np.asarray(O.q2R(Qn), float), Rq), ('q_rot(q, v)', lambda: np.asarray(O.q_rot(Qn, v.copy()), float), Rq.T @ v),
+                              ('q_prod(p, q)', lambda: np.asarray(O.q_prod(qs[0].copy(), Qn), float), rq.qmul(qs[0], q)), ('Quaternion(p).product(q)', lambda: np.asarray(Quaternion(qs[0].copy()).product(Qn), float), rq.qmul(qs[0], q)),
+                              ('DCM(q=q)', lambda: np.asarray(DCM(q=Qn), float), Rq)]
+                for nm, got, exp in reads:
+                    try:
+                        out = got()
+                    except (TypeError, AttributeError):
+                        ctx.outcome(('object-refused', nm)); continue
+                    except Exception as ex:
+                        ctx.fail(f'{nm} raises after normalize()', key, repr(ex)[:120], 'the unit quaternion'); continue
+                    ctx.close(out, exp, TOL, f'after Quaternion(non-unit, versor=False).normalize(): {nm} reads the unit quaternion', key)
+        ctx.cls('normalised-in-place')
     ctx.sample({'default_objects': ['Quaternion()', 'DCM()', 'QuaternionArray()'], 'derived': ['-q', '+q', 'copy', 'deepcopy']})
 
 
